@@ -1,4 +1,6 @@
 import HavocVerif.Model.Expr
+import HavocVerif.Lemmas.Prec
+import HavocVerif.Gen.HclOps
 /-
   C18 — yaotl expressions and templates evaluate as the language defines.
   The reference semantics is `Hx.eval` (Model/Expr.lean); the theorems below pin the clauses of
@@ -154,5 +156,72 @@ example : same (eval 7 [("nums", .tuple [.num 1, .num 2])]
     (.tmpl [.str "n:", .join (.forE none "v" (.var "nums") none (.tmplS [.var "v", .str ","]) none false)])) (.ok (.str "n:1,2,")) = true := by decide
 example : same (eval 7 [("b", .bool true)] (.tmplS [.cond (.var "b") (.tmplS [.var "b"]) (.str "")])) (.ok (.str "true")) = true := by decide
 example : same (eval 7 [("t", .tuple [.null])] (.join (.forE none "v" (.var "t") none (.var "v") none false))) (.err .str) = true := by decide
+
+/-! ## precedence, associativity, parentheses (the parser of binary operators) -/
+namespace Prec
+open Havoc.Prec Havoc.Hx
+
+/-- **Precedence, associativity, independence of parentheses.**  Whatever way an expression tree is
+    written - the fewest parentheses the grammar needs or any number of redundant ones - the parser
+    returns exactly that tree and consumes the whole input (with enough fuel, and then with any more). -/
+theorem parse_spelling {e : Ex} {ts : List Tok} (h : Spelling 0 e ts) :
+    ∃ f, ∀ g, f ≤ g → parseLevel g 0 ts = some (e, []) := by
+  have hp : PL 0 (ts ++ []) (e, []) := by
+    apply spelling_parses h (by unfold nLevels; omega) 0 (Nat.le_refl _) [] trivial
+    have : min (0 + 1) nLevels = 1 := by unfold nLevels; omega
+    rw [this]
+    exact Fin_extend 1 0 (fun _ _ _ => trivial) (by simp [Havoc.Prec.Fin])
+  simp only [List.append_nil] at hp
+  obtain ⟨f, hf⟩ := hp
+  exact ⟨f, fun g hg => (mono_le hg).1 _ _ _ hf⟩
+
+theorem parse_print (e : Ex) : ∃ f, ∀ g, f ≤ g → parseLevel g 0 (pr 0 e) = some (e, []) :=
+  parse_spelling (pr_spelling e 0)
+
+/-- two trees that are spelled the same are the same tree: a spelling determines its tree -/
+theorem spelling_unique {e e' : Ex} {ts : List Tok} (h : Spelling 0 e ts) (h' : Spelling 0 e' ts) : e = e' := by
+  obtain ⟨f, hf⟩ := parse_spelling h
+  obtain ⟨f', hf'⟩ := parse_spelling h'
+  have a := hf (max f f') (Nat.le_max_left _ _)
+  have b := hf' (max f f') (Nat.le_max_right _ _)
+  rw [a] at b
+  exact (Prod.mk.inj (Option.some.inj b)).1
+
+/-! kernel-checked instances: left associativity within a level, precedence across levels, parentheses -/
+-- a - b - c  =  (a - b) - c
+example : parseLevel 40 0 [.atom 1, .op .sub, .atom 2, .op .sub, .atom 3] =
+    some (.bin .sub (.bin .sub (.atom 1) (.atom 2)) (.atom 3), []) := by decide
+-- a + b * c == d && e  =  ((a + (b * c)) == d) && e
+example : parseLevel 60 0 [.atom 1, .op .add, .atom 2, .op .mul, .atom 3, .op .eq, .atom 4, .op .and, .atom 5] =
+    some (.bin .and (.bin .eq (.bin .add (.atom 1) (.bin .mul (.atom 2) (.atom 3))) (.atom 4)) (.atom 5), []) := by decide
+-- a - (b - c) needs its parentheses, ((a)) - b does not
+example : pr 0 (.bin .sub (.atom 1) (.bin .sub (.atom 2) (.atom 3))) = [.atom 1, .op .sub, .lp, .atom 2, .op .sub, .atom 3, .rp] := by decide
+example : Spelling 0 (.bin .sub (.atom 1) (.atom 2)) [.lp, .lp, .atom 1, .rp, .rp, .op .sub, .atom 2] := by
+  have a : Spelling 4 (.atom 1) [.lp, .lp, .atom 1, .rp, .rp] :=
+    Spelling.paren 4 _ _ (Spelling.paren 0 _ _ (Spelling.atom 0 1))
+  exact Spelling.bin 0 .sub _ _ _ _ (Nat.zero_le _) a (Spelling.atom 5 2)
+/-! ### the tie to the source: the operator table and the shape of the recursion are regenerated -/
+
+/-- the operation name of hclsyntax for each operator of the model -/
+def goName : BinOp → String
+  | .or => "OpLogicalOr" | .and => "OpLogicalAnd" | .eq => "OpEqual" | .ne => "OpNotEqual"
+  | .lt => "OpLessThan" | .le => "OpLessThanOrEqual" | .gt => "OpGreaterThan" | .ge => "OpGreaterThanOrEqual"
+  | .add => "OpAdd" | .sub => "OpSubtract" | .mul => "OpMultiply" | .div => "OpDivide" | .mod => "OpModulo"
+
+/-- (regenerated) `binaryOps` has the model's six groups, every operator sits in the group the model gives it,
+    and no group holds anything else -/
+theorem levels_as_modelled :
+    Gen.HclOps.levels.length = nLevels ∧
+    (∀ o : BinOp, (Gen.HclOps.levels.getD (lvl o) []).any (fun p => p.2 == goName o) = true) ∧
+    (Gen.HclOps.levels.map List.length).sum = 13 := by
+  refine ⟨by decide, ?_, by decide⟩
+  intro o; cases o <;> decide
+
+/-- (regenerated) both operands of an operator are parsed with the table of the tighter levels only
+    (`remaining`): operators of one level combine to the left; the condition of `? :` starts at the lowest level -/
+theorem recursion_as_modelled :
+    Gen.HclOps.recursionArgs = ["remaining", "remaining"] ∧ Gen.HclOps.ternaryArgs = ["binaryOps"] := by decide
+
+end Prec
 
 end Havoc.C18
